@@ -712,6 +712,11 @@ class Hist:
             m = dict((int(d), I(a)) for d, a in mx)
             return all(I(a) <= m[int(d)] for d, a in mn if int(d) in m)
         in_domain = consistent(par["max_gb"], par["min_gb"]) and consistent(par["max_hr"], par["min_hr"])
+        if op == "G":
+            self.c11_left = False
+        if not in_domain:
+            self.c11_left = True             # sticky: DESIGN section 5.1 quantifies over histories that never cross the bounds
+        in_domain = in_domain and not getattr(self, "c11_left", False)
         if op in ("E", "G") and not in_domain:
             self.nt("C11.out_of_domain")     # DESIGN section 5.1 (min <= max) does not hold: the statement does not apply
         if op in ("E", "G") and in_domain:
